@@ -463,6 +463,17 @@ func ruleWireStringIndex(c *core.Ctx, d *decoderSet, rule string) {
 				if !isK {
 					continue
 				}
+				// the buffer comes from a helper that returns (on success) exactly as many
+				// bytes as a constant argument says — readExact(r, 1)[0]
+				if ex, isEx := core.StripConv(core.Canon(base)).(*ssa.Extract); isEx {
+					if cl, isCall := ex.Tuple.(*ssa.Call); isCall {
+						if j, okH := movesParamBytes(cl.Call.StaticCallee(), d.readN, nil); okH && j < len(cl.Call.Args) {
+							if ln, isConst := core.ConstInt(cl.Call.Args[j]); isConst && k < ln {
+								continue
+							}
+						}
+					}
+				}
 				n++
 				b0 := core.StripConv(core.Canon(base))
 				isLen := func(v ssa.Value) bool {
